@@ -399,7 +399,7 @@ func runFail(c *fw.Ctx, plan failPlan) {
 	spec := plan.Spec
 	var wl *Workload
 	var a *analysis
-	ok := c.Case("run-"+spec.Name, spec, func() {
+	ok := setupCase(c, "run-"+spec.Name, spec, func() {
 		wl = Build(spec)
 		run := wl.Execute(nil, nil)
 		for i, e := range run.StepErrs {
@@ -444,6 +444,9 @@ func runFail(c *fw.Ctx, plan failPlan) {
 		var wg sync.WaitGroup
 		sem := make(chan struct{}, 3)
 		for _, j := range sel {
+			if id := fmt.Sprintf("%s!%d", spec.Name, j); c.OnlyCase != "" && c.OnlyCase != id && c.OnlyCase != id+"-reopen" {
+				continue // replay of one case: only its injection is needed
+			}
 			wg.Add(1)
 			go func(j int) {
 				defer wg.Done()
@@ -469,6 +472,9 @@ func runFail(c *fw.Ctx, plan failPlan) {
 				c.Count("fail_on_preimage_batch_mid_flush")
 			}
 			r := results[j]
+			if r == nil {
+				return
+			}
 			// the intermediate flush of a trie-database commit is another code
 			// path than its final write: keep the causes apart
 			cls := a.class[j]
